@@ -20,6 +20,10 @@ Definition sc_inv (s : sc) : Prop :=
   0 < sc_w s < two32 /\ 0 <= sc_n s <= sc_w s /\ slen (sc_sl s) = sc_w s /\ sc_w s <= scap (sc_sl s)
   /\ incr (map fst (sc_live s)) = true.
 
+Definition sc_invb (s : sc) : bool :=
+  (0 <? sc_w s) && (sc_w s <? two32) && (0 <=? sc_n s) && (sc_n s <=? sc_w s) && (slen (sc_sl s) =? sc_w s)
+  && (sc_w s <=? scap (sc_sl s)) && incr (map fst (sc_live s)).
+
 Definition last_seq (l : list counter) : Z := match rev l with c :: _ => fst c | [] => 0 end.
 Definition first_seq (l : list counter) : Z := match l with c :: _ => fst c | [] => 0 end.
 
@@ -71,6 +75,11 @@ Definition sdb_inv (b : sdb) : Prop :=
   /\ incr (map i_seq (sdb_live b)) = true
   /\ Forall (fun i => 0 <= i_seq i < two32) (sdb_live b).
 
+Definition sdb_invb (b : sdb) : bool :=
+  (0 <? b_size b) && (b_size b <? two32) && (0 <=? b_n b) && (b_n b <=? b_size b) && (slen (b_sl b) =? b_size b)
+  && (b_size b <=? scap (b_sl b)) && incr (map i_seq (sdb_live b))
+  && forallb (fun i => (0 <=? i_seq i) && (i_seq i <? two32)) (sdb_live b).
+
 Definition sdb_adds (b : sdb) (l : list item) : res sdb :=
   fold_left (fun r it => do b <- r; do x <- sdb_add b it; Ok (fst x)) l (Ok b).
 
@@ -88,8 +97,22 @@ Definition spec_badd (size : Z) (l : list item) (it : item) : list item * bool :
 
 (** * segmentTimelineGenerator *)
 Definition gen_inv (g : gen) : Prop :=
-  sc_inv (g_cnt g) /\ 0 < g_w g < two32 /\ Forall (fun kb => sdb_inv (snd kb)) (g_bufs g)
+  sc_inv (g_cnt g) /\ sc_w (g_cnt g) = g_w g /\ 0 < g_w g < two32
+  /\ Forall (fun kb => sdb_inv (snd kb) /\ b_size (snd kb) = g_w g) (g_bufs g)
   /\ 0 <= g_latest g.
+
+Definition buf_of (g : gen) (name : Z) : sdb :=
+  match lookup name (g_bufs g) with Some b => b | None => sdb_new (g_w g) end.
+
+Definition item_okb (it : item) : bool := (0 <=? i_seq it) && (i_seq it <? two32).
+
+(** the counters are only touched when the track's buffer accepts the item *)
+Definition gen_add_pre (g : gen) (name : Z) (it : item) : bool :=
+  if g_shifted g && negb (i_shifted it) then true
+  else match sdb_add (buf_of g name) it with
+       | Ok (_, true) => sc_add_pre (g_cnt g) (i_seq it)
+       | _ => true
+       end.
 
 (** [start]/[resize] to a window below what is stored is the shrink defect *)
 Definition gen_resize_pre (g : gen) (nw : Z) : bool :=
@@ -97,15 +120,72 @@ Definition gen_resize_pre (g : gen) (nw : Z) : bool :=
 
 (** * channel *)
 Definition chan_inv (c : chan) : Prop :=
-  gen_inv (ch_gen c) /\ 0 <= ch_mdur c.
+  gen_inv (ch_gen c) /\ (g_shifted (ch_gen c) = true -> ch_mdur c <> 0).
+
+(** every registered track can be measured when the channel starts: it has a buffer (needed for
+    video tracks and tracks without btrt box) whose stored durations do not sum to zero *)
+Definition tracks_ready (g : gen) (tracks : list track) : bool :=
+  forallb (fun t => match lookup (tr_name t) (g_bufs g) with
+                    | None => tr_btrt t && negb (tr_video t)
+                    | Some b => tr_btrt t || negb (sum_durs (takeZ (b_n b) (arr (b_sl b))) =? 0)
+                    end) tracks.
+
+(** first half of receivedSegData: addSegmentData and, for a newly complete number, the MPD *)
+Definition chan_mid (c : chan) (name : Z) (it : item) : res (gen * option published) :=
+  do r <- gen_addSegmentData (ch_gen c) name it;
+  let '(g1, newSeqNr, _) := r in
+  if newSeqNr =? 0 then Ok (g1, None) else gen_generate g1 newSeqNr (chan_asets c).
+
+Definition start_window (c : chan) (mts dur : Z) : Z :=
+  u32 (u32 (Z.quot (u32 (ch_tsbd c * mts)) dur + 2) - 1).
+
+(** what the start-up part of receivedSegData needs when this upload completes the measurement
+    of the master track: a non-zero duration, every track measurable, and a window that does not
+    cut into what is stored *)
+Definition chan_start_pre (c : chan) (g2 : gen) (name : Z) : bool :=
+  if (ch_mdur c =? 0) && (name =? ch_master c) then
+    match lookup name (g_bufs g2) with
+    | None => true
+    | Some b =>
+      if b_n b <? 2 then true
+      else match nthZ 0 (arr (b_sl b)), nthZ 1 (arr (b_sl b)) with
+           | Some i0, Some i1 =>
+             if negb (i_seq i1 =? u32 (i_seq i0 + 1)) || negb (i_dur i1 =? i_dur i0) then true
+             else
+               let mts := match find_track name (ch_tracks c) with Some t => tr_tsOut t | None => 0 end in
+               negb (i_dur i1 =? 0) && tracks_ready g2 (ch_tracks c)
+               && gen_resize_pre g2 (start_window c mts (i_dur i1))
+           | _, _ => true
+           end
+    end
+  else true.
 
 (** one upload as seen by the channel goroutine: a complete segment of track [name] *)
 Record upload := mkUp { up_name : Z; up_item : item }.
+
+Definition chan_pre (c : chan) (u : upload) : bool :=
+  match find_track (up_name u) (ch_tracks c) with
+  | None => true
+  | Some _ =>
+    item_okb (up_item u) && gen_add_pre (ch_gen c) (up_name u) (up_item u) &&
+    match chan_mid c (up_name u) (up_item u) with
+    | Ok (g2, _) => chan_start_pre c g2 (up_name u)
+    | _ => true
+    end
+  end.
 
 Definition chan_step (r : res chan) (u : upload) : res chan :=
   do c <- r; do o <- chan_received c (up_name u) (up_item u); Ok (o_chan o).
 
 Definition chan_run (c : chan) (ups : list upload) : res chan := fold_left chan_step ups (Ok c).
+
+(** the precondition holds at every state the run goes through *)
+Fixpoint run_pre (c : chan) (ups : list upload) : Prop :=
+  match ups with
+  | [] => True
+  | u :: rest => chan_pre c u = true /\
+                 forall o, chan_received c (up_name u) (up_item u) = Ok o -> run_pre (o_chan o) rest
+  end.
 
 (** the uploads together with what was published after each of them *)
 Fixpoint chan_trace (c : chan) (ups : list upload) : res (list (option published) * chan) :=
